@@ -1,7 +1,7 @@
 SPEC = dict(
     level="exploration",
     technique="runtime monitor: instrumented generator/mapper/reducer callbacks record every item, value, cancel, panic, context event and reducer Write with sequence stamps; an oracle over the recorded history decides outcome class, exactly-once/at-most-once delivery, worker bound, termination (25 s watchdog per call) and goroutine-leak freedom (scan of all goroutine stacks for lib/mr frames); gated scenario families + seeded random racing scenarios; separate -race run",
-    level_text="Every call of MapReduce/MapReduceVoid/MapReduceChan/ForEach/Finish/FinishVoid made by the harness is judged from its recorded history. Quick: ~4.3k gated scenarios (worker settings x item counts 0..10w x entry points x {normal, reducer stops early / writes early / writes twice, cancel by mapper or reducer, first cancel wins, panic in generator/mapper/reducer, context done before / during the call, output-first-then-late-panic/cancel, cancel-or-context-then-late-panic}) with one legal outcome each (two for the ordered 'late' classes), 30k seeded random racing scenarios with a legal outcome set derived from the events executed, 240k calls with an already-cancelled context, and 5k random + reduced gated scenarios under the race detector; GOMAXPROCS rotated over 1/2/4/16. On a tree where a call does not return, the affected test function stops at the first such call (signature C07:hang:<class>, goroutine dump excerpt). Held = no deviation on the executions observed, not a proof over all schedules.",
+    level_text="Every call of MapReduce/MapReduceVoid/MapReduceChan/ForEach/Finish/FinishVoid made by the harness is judged from its recorded history. Quick: ~4.6k gated scenarios (worker settings x item counts 0..10w x entry points x {normal, reducer stops early / writes early / writes twice, cancel by mapper or reducer, first cancel wins, panic in generator/mapper/reducer, context done before / during the call, output-first-then-late-panic/cancel, cancel-or-context-then-late-panic}) with one legal outcome each (two for the ordered 'late' classes), 16k seeded random racing scenarios with a legal outcome set derived from the events executed, 150k calls with an already-cancelled context, and 4k random + reduced gated scenarios under the race detector; GOMAXPROCS rotated over 1/2/4/16. On a tree where a call does not return, the affected test function stops at the first such call (signature C07:hang:<class>, goroutine dump excerpt). Held = no deviation on the executions observed, not a proof over all schedules.",
     level_note="Trusts: Go runtime and race detector, runtime.Stack as the goroutine census, the sequence stamps taken inside user callbacks (a stamp before/after a library call brackets it), ~150 lines of oracle. Not asserted (outside the statement or undecidable from outside): which of two unordered terminating events wins; that items are still mapped after the reducer stopped early (counted only); exactly-once delivery once any cancel/panic/context event was executed (at-most-once is); reducers writing three or more times; a generator that is still blocked on its send (leak clause is conditional on the generator having returned); ForEach with a cancelled context may return normally. The thorough tier additionally widens guardedWriter.Write (between the done check and the send) and the close of the collector with gofail sleeps.",
     design_ref="DESIGN.md §3 C07",
     assumptions=[
